@@ -149,6 +149,9 @@ def run(ctx):
     from . import c10 as _c10
     _c10.subsume_guard(ctx, "C02-R4")
     _c10.subsume_operands(ctx, "C02-R4")
+    # R5: two ids with the same bytes must both be present in the trie (mask walks the trie, commit reads the byte table) — shared with C16-R6
+    from . import c16 as _c16
+    _c16.builder_first_match(ctx, "C02-R5")
 
     # ------------------------------------------------------------------ R2 walks push node bytes
     n = 0
